@@ -218,6 +218,25 @@ class AM:
         return self.i % 3 == 0
 
 
+def _parked_gen():
+    yield "parked"
+
+
+_PARKED = _parked_gen()
+next(_PARKED)
+
+
+def _reentrant_elaborate(mgr, context):
+    """every Python-level manager of the corpus has an elaborate_context hook that RE-ENTERS the public API (as the
+    documentation of unwrap_context_generator suggests hooks may): the enclosing extraction must carry on with its own
+    options afterwards"""
+    stackscope.extract_outermost(_PARKED, with_contexts=False, recurse_child_tasks=True)
+
+
+stackscope.elaborate_context.register(M)(_reentrant_elaborate)
+stackscope.elaborate_context.register(AM)(_reentrant_elaborate)
+
+
 class M2(M):
     """same behaviour, but __enter__/__exit__ are aliases of differently named functions"""
 
